@@ -110,7 +110,10 @@ Record conn := mkConn { pending : list pcmd;
 Inductive sop :=
 | SGate (c : pcmd)                 (* any operation that only adds a command *)
 | SMeasArr (c : pcmd)              (* measurement into a fresh array (future) *)
-| SMeasReg (r : nat) (c : pcmd)    (* measurement into a register that is returned *)
+| SMeasReg (r : nat) (c : pcmd)    (* measurement into a register that is returned; r is an
+                                      abstract id (order of issue since the last reset): which
+                                      M register the builder picks is an allocation detail, the
+                                      correspondence compares registers up to renaming *)
 | SFlush
 | SCompile
 | SInstantiate (v : string -> Z)
